@@ -35,3 +35,6 @@ package astitodo
 //@ ensures result != nil && (*result).Assignee != "" ==> HasPrefix(AfterMark(TodoBody(GetText(token))), "(" + (*result).Assignee + ")")
 //@ ensures result != nil && (*result).Assignee != "" ==>
 //@    (*result).Message == MsgClean(SkipColon(TrimSpace(AfterMark(TodoBody(GetText(token)))[len((*result).Assignee) + 2:])))
+// proof steps (each is proved where it stands, then used): the running text equals the spec-level decomposition
+//@ assert after IsTodoIdentifier#1 t == TodoBody(GetText(token))
+//@ assert after FindString#1 t == AfterMark(TodoBody(GetText(token)))
